@@ -198,7 +198,7 @@ REGISTRABLE = {   # which classes of a family get registered (instances of ALL c
     'chain': ['A', 'B', 'C'], 'diamond': ['DA', 'DB', 'DC'], 'diamond-bottom': ['XD', 'XB', 'XC'], 'mixin': ['Mix', 'MA'], 'iterable': ['It'], 'slots': ['Sl'],
     'dictsub': ['MyDict', 'MyDictS'], 'seqsub': ['MyList'], 'container-first-mixin': ['Audited'], 'scalar-subclass': ['TagStr'],
 }
-OPSETS = {'all': OPS, 'get': ['get'], 'itk': ['iterate', 'keys'], 'mut': ['assign', 'delete']}
+OPSETS = {'all': OPS, 'get': ['get'], 'itk': ['iterate', 'keys'], 'mut': ['assign', 'delete'], 'none': []}   # 'none': a bare register(X) / register(X, exact=..)
 # registrations that switch an operation OFF for a type (handler False)
 OFFSETS = {'no-iterate': ['iterate'], 'no-assign': ['assign', 'delete'], 'no-get': ['get']}
 
@@ -229,22 +229,33 @@ def mk_handler(op, tag):
 # ---------------------------------------------------------------------------
 # observation through the public API
 
+SPECS = {}
+
+
+def fresh_specs():
+    """ONE spec object per operation for a whole history: it is used with every registry, before and after every registration"""
+    SPECS.clear()
+    SPECS.update({'get': Path('x'), 'iterate': [T], 'keys': Path.from_text('*'), 'assign': Assign('y', 1), 'delete': Delete('x')})
+
+
 def observe_one(gl, op, cname):
     """gl = callable like glom; fresh object per observation"""
     o = CLS[cname]()
     del HLOG[:]
+    if not SPECS:
+        fresh_specs()
     try:
         if op == 'get':
-            return repr(gl(o, 'x'))
+            return repr(gl(o, SPECS['get']))
         if op == 'iterate':
-            return repr(gl(o, [T]))
+            return repr(gl(o, SPECS['iterate']))
         if op == 'keys':
-            return repr(gl(o, '*'))
+            return repr(gl(o, SPECS['keys']))
         if op == 'assign':
-            gl(o, Assign('y', 1))
+            gl(o, SPECS['assign'])
             return 'log=%r y=%r' % (HLOG, probe(o, 'y'))
         if op == 'delete':
-            gl(o, Delete('x'))
+            gl(o, SPECS['delete'])
             return 'log=%r x=%r' % (HLOG, probe(o, 'x'))
         if op == 'assign-created':
             # the object is created by missing= during the call: filling it must use the SAME registry as everything else in the call
@@ -489,6 +500,7 @@ def apply_event(registries, ev):
 
 def run_history_inproc(family, hist, observe_every, with_module):
     registries = {'default': Glommer(), 'bare': Glommer(register_default_types=False)}
+    fresh_specs()
     callers = {'default': registries['default'].glom, 'bare': registries['bare'].glom}
     if with_module:
         registries['module'] = None
@@ -615,6 +627,18 @@ def gen_histories(tier):
                             cases.append([family, [[reg, c, off, exact], [reg, c, other, exact]], False])
                             cases.append([family, [[reg, c, other, exact], [reg, c, off, exact]], False])
                         cases.append([family, [[reg, c, off, False]], False])
+        # a bare registration (no handlers) before / after a registration with handlers of the same class, every combination of exact
+        for c in REGISTRABLE[family]:
+            for other in ('get', 'all', 'mut', 'itk', 'none'):
+                for reg in ('default', 'bare'):
+                    for e1 in (False, True):
+                        for e2 in (False, True):
+                            cases.append([family, [[reg, c, other, e1], [reg, c, 'none', e2]], False])
+                            if other != 'none':
+                                cases.append([family, [[reg, c, 'none', e1], [reg, c, other, e2]], False])
+            for reg in ('default', 'bare'):
+                for e1 in (False, True):
+                    cases.append([family, [[reg, c, 'none', e1]], False])
         if tier == 'quick':
             # depth 3 only for the re-registration pattern: register X, register Y, register X again (possibly with other operations)
             for x, y in itertools.permutations(REGISTRABLE[family], 2):
